@@ -326,6 +326,21 @@ def exact_text(t: T) -> T:
     return t
 
 
+def index_comp(t: T) -> T:
+    """np.array([f(x) for x in X])[k] is f(X[k]) (k an integer index)"""
+    def rw(z: T):
+        if z.op == "sub" and z.args[1].op not in ("slice", "tuple"):
+            c = _as_comp(z.args[0])
+            if c is not None:
+                elt, lid, it = c
+                hole = T("elem", it, lid)
+                k = z.args[1]
+                return elt.map(lambda y: tm.sub(it, k) if y is hole
+                               else None)
+        return None
+    return t.map(rw)
+
+
 def index_form(t: T) -> T:
     """loop elements of a leading slice written as subscripts: the k-th
     element of X[:m] (m a bound, no start / step) is X[k], so
